@@ -166,7 +166,7 @@ def run_two_devices(params, ch):
     ops = [('shell', 'c', {'decode': False}), ('stat', '/f')]
     viol = []
     if twin == 'sync':
-        s1 = Session(ch, cfg, twin='sync', lock_factory=SchedLock, wcap=True, max_calls=5000)
+        s1 = Session(ch, cfg, twin='sync', lock_factory=SchedLock, wcap=not params.get('frag'), frag=bool(params.get('frag')), max_calls=5000)
         s2 = Session(ch, cfg, twin='sync', lock_factory=SchedLock, max_calls=5000)
         try:
             s1.op(('connect',))
@@ -185,7 +185,7 @@ def run_two_devices(params, ch):
             s2.finish()
             s1.finish()
     else:
-        s1 = Session(ch, cfg, twin='async', explore_io=False, max_calls=5000)
+        s1 = Session(ch, cfg, twin='async', explore_io=False, frag=bool(params.get('frag')), max_calls=5000)
         s2 = Session(ch, cfg, twin='async', share_loop=s1.loop, max_calls=5000)
         try:
             s1.op(('connect',))
